@@ -109,6 +109,10 @@ def check_iter(inp):
 
 
 def sweep_iter(tier, seed):
+  # datasets larger than any small-integer index type (2^8, 2^16) can hold, with small batches
+  for n, b in ((257, 20), (300, 256), (65537, 4096)) if tier != 'quick' else ((257, 20), (300, 256)):
+    for skip in (False, True):
+      yield dict(N=n, batch_size=b, num_steps=2 * (n // b) + 3, skip_shuffle=skip, seed=seed + n)
   hi = 8 if tier == 'quick' else 13
   for n in range(1, hi):
     for b in range(1, 2 * hi):
